@@ -251,3 +251,18 @@ add("C20",
     shards={"quick": 16, "thorough": 16},
     require_counts=["crash_images", "executions:Local+strays", "executions:OpendalMemory", "single_stray_cases"],
     )
+
+add("C16",
+    engine="CRASH",
+    level="fault_enumeration",
+    technique="exhaustive crash-point enumeration over the combined hot+cold operation sequence of a real history, differential run against a single store, cold store rejecting un-warmed reads, and every subset of hot files removed before repair",
+    design_ref="DESIGN.md §4.3, §5 C16",
+    level_text="A 12-step history (init, three backups, key add/delete, forget, prune mark / delete+repack-all / default options, config change, copy-into) runs on a hot/cold pair of recording stores and on a single store. "
+               "After every mutating backend call the (cold,hot) pair is checked: every key, snapshot, index and tree-pack file the cold store lists is in the hot store byte-identically and the hot store holds no data pack; after each step the cold store "
+               "equals the single store canonically (pack layout options given explicitly) and all snapshots read back to the source on both. With a cold store that fails every pack read not preceded by warm_up of that id in the same command, "
+               "restore, prune with repacking and repair-index --read-all must succeed with zero un-warmed reads. Every non-empty subset of the first 9 (quick) / 12 (thorough) hot files is removed and repair_hotcold_except_packs (+ open_only_cold/init_hot when the hot config is gone) + repair_hotcold_packs must restore the invariant and all snapshots.",
+    level_note="Single linearisation per command (the completion-order dimension is C03/C13's); evaluations = crash states + removed subsets.",
+    shards={"quick": 16, "thorough": 16},
+    rule="crash states of the (cold,hot) pair after every mutating call of a 12-step history + every non-empty subset of hot files removed before repair; non-trivial = distinct canonical (cold,hot) states and distinct repaired subsets",
+    require_counts=["cold_restores", "cold_prune_repacks", "cold_repair_index", "crash_states", "hot_subsets_removed"],
+    )
